@@ -58,3 +58,47 @@ case("having-then-order-by", 1,
      [("av", ("agg", "avg", ("col", "t")))],
      [[("x", 10, 1, 10), ("y", 1, 1, 30), ("x", 10, 1, 50), ("y", 2, 1, 70)]],
      having=("cmp", "gt", ("agg", "sum", ("col", "a")), ("lit", 16)), order=[("av", "d")], limit=1)
+
+# found by the generated cases: an aggregate over an expression argument inside a compound item
+# was never fed (the aggregator looked up a column literally named "a + 1") and the item was NULL
+case("compound-agg-over-expression", 2,
+     "SELECT d, SUM(a + 1) * 2 AS y FROM stream GROUP BY d, CountingWindow(3)", "direct",
+     [("y", ("bin", "mul", ("agg", "sum", ("bin", "add", ("col", "a"), ("lit", 1))), ("lit", 2)))],
+     [[("x", 1, 1, 10), ("y", 5, 1, 30), ("x", 3, 1, 50)]])
+
+# found by the generated cases: an unselected HAVING aggregate over an expression argument was
+# computed over the expression's first column only (SUM(a) instead of SUM(a * t))
+case("having-agg-over-expression", 3,
+     "SELECT d, SUM(a) AS s FROM stream GROUP BY d, CountingWindow(3) HAVING SUM(a * t) > 100", "direct",
+     [("s", ("agg", "sum", ("col", "a")))],
+     [[("x", 1, 1, 10), ("y", 5, 1, 30), ("x", 3, 1, 50)]],
+     having=("cmp", "gt", ("agg", "sum", ("bin", "mul", ("col", "a"), ("col", "t"))), ("lit", 100)))
+
+# found by the generated cases: two aggregates in one compound item, one over an expression
+# argument: the per-row evaluator closed over the loop variable and evaluated the argument of
+# the item's last-registered (textually first) call instead: AVG(b * b) came out as AVG(t)
+case("compound-two-aggs-one-over-expression", 4,
+     "SELECT d, AVG(t) + AVG((b * b)) AS y FROM stream GROUP BY d, CountingWindow(3)", "direct",
+     [("y", ("bin", "add", ("agg", "avg", ("col", "t")), ("agg", "avg", ("bin", "mul", ("col", "b"), ("col", "b")))))],
+     [[("x", 1, 2, 10), ("y", 5, 3, 30), ("x", 3, 4, 50)]])
+
+# found by the generated cases: a HAVING aggregate whose argument has nested parentheses was filed
+# as an `expression` aggregate (last row's value) because the single-call test used `[^)]*`
+case("having-agg-nested-parens", 5,
+     "SELECT d, SUM(a) AS s FROM stream GROUP BY d, CountingWindow(3) HAVING SUM(t * (b - 2)) <= 0", "direct",
+     [("s", ("agg", "sum", ("col", "a")))],
+     [[("x", 1, 1, 10), ("y", 5, 1, 30), ("x", 3, 4, 50), ("y", 1, 3, 10)]],
+     having=("cmp", "le", ("agg", "sum", ("bin", "mul", ("col", "t"), ("bin", "sub", ("col", "b"), ("lit", 2)))), ("lit", 0)))
+
+# found by the generated cases: a SELECT item that is one aggregate call in redundant parentheses
+# was classified as neither aggregate nor expression and silently produced no column
+case("parenthesised-single-aggregate", 6,
+     "SELECT d, (AVG(t)) AS m, SUM(a) AS s FROM stream GROUP BY d, CountingWindow(3)", "direct",
+     [("m", ("agg", "avg", ("col", "t"))), ("s", ("agg", "sum", ("col", "a")))],
+     [[("x", 1, 1, 10), ("y", 5, 1, 30), ("x", 3, 4, 50)]])
+
+# found by the generated cases: LIMIT 0 was indistinguishable from "no LIMIT" and delivered every row
+case("limit-zero", 7,
+     "SELECT d, SUM(a) AS s FROM stream GROUP BY d, CountingWindow(3) ORDER BY s LIMIT 0", "direct",
+     [("s", ("agg", "sum", ("col", "a")))],
+     [[("x", 1, 1, 10), ("y", 5, 1, 30), ("x", 3, 4, 50)]], order=[("s", "a")], limit=0)
